@@ -224,6 +224,46 @@ class Gen:
         return "\n".join(out) + "\n", root
 
 
+def overwrite_updates(P, key, newv='"new"', tag="!!str", val="new"):
+    """`+=` / `|= . +` with a map whose key already exists: only the VALUE of that entry is the target."""
+    pe = expr_of(P) if P else "."
+    tgt = tuple(P) + (key,)
+    lit = '{"%s": %s}' % (key, newv)
+    forms = ["%s += %s" % (pe, lit), "%s |= . + %s" % (pe, lit)]
+    return [{"kind": "assign", "path": tgt, "expr": f, "value": (newv, tag, val), "overwrite": True, "selected": True} for f in forms]
+
+
+def directed_docs():
+    """Seed-independent family: every presentation a map entry's KEY can carry (head comment, foot comment with and
+    without blank line, line comment, quoted / single-quoted key, anchor on the value) x an overwrite through += ."""
+    docs = []
+    n = [0]
+
+    def c(p):
+        n[0] += 1
+        return "%s%d" % (p, n[0])
+    for keytext in ("x", '"x"', "'x'"):
+        for head in (False, True):
+            for foot in ("", "tight", "blank"):
+                for pos in ("first", "middle", "last"):
+                    n[0] = 0
+                    ent = []
+                    if head:
+                        ent.append("  # " + c("hc"))
+                    ent.append("  %s: one # %s" % (keytext, c("lc")))
+                    if foot:
+                        ent.append("  # " + c("fc"))
+                        if foot == "blank":
+                            ent.append("")
+                    others = ["  # " + c("hc"), "  y: 2", "  z: 'q' # " + c("lc")]
+                    body = {"first": ent + others, "middle": others[:2] + ent + others[2:], "last": others + ent}[pos]
+                    text = "\n".join(["a:"] + body + ["b: keep # " + c("lc")]) + "\n"
+                    docs.append((text, overwrite_updates(("a",), "x")))
+    docs.append(("# lead1\n\nx: one # lc2\n# fc3\n\n# hc4\ny: 2\n", overwrite_updates((), "x")))
+    docs.append(("m:\n  - # hc1\n    \"x\": one\n    # fc2\n\n    y: 2\n  - x: other # lc3\n", overwrite_updates(("m", 0), "x")))
+    return docs
+
+
 def gen_selection_doc(rng):
     """A document and updates whose target is SELECTED (by value, by a test on the key, through a splat inside
     select) rather than addressed by a path.  Two shapes: a list of groups in which the key that the
@@ -491,6 +531,14 @@ def compare_comments(o0, o1, t0, t1, upd):
                     for tok in re.findall(r"# (?:hc|lc|fc|lead|tail)\d+\b", c):
                         if tok in c1 and c1[tok] > first_new and not diffs:
                             diffs.append(("comment-moved", tok, "on an existing child, in front of the new entries", "after a new entry"))
+    if upd.get("overwrite"):
+        # the key node of the overwritten entry is not part of the target (its value is): the comments yaml.v3 keeps
+        # on the key (above and below the entry) survive; the value's own line comment goes with the value
+        for q in (P + ("#k",),):
+            for c in t0.get(q, {}).get("cm", []):
+                for tok in re.findall(r"# (?:hc|lc|fc|lead|tail)\d+\b", c):
+                    if tok not in c1:
+                        diffs.append(("comment-lost", q, tok, None))
     # a comment that shares its line with content stays on a line that starts the same way
     l0, l1 = o0.split("\n"), o1.split("\n")
 
@@ -620,7 +668,7 @@ def make_updates(rng, table, root):
     ups = []
     if not ts:
         return ups
-    for kind in ("assign", "relassign", "delete", "deletefirst", "append", "appendone", "padassign", "twostep", "mapappend", "create", "subtree"):
+    for kind in ("assign", "relassign", "delete", "deletefirst", "append", "appendone", "padassign", "twostep", "mapappend", "mapoverwrite", "create", "subtree"):
         P = rng.choice(ts)
         e = table[P]
         k = e["a"][0]
@@ -649,6 +697,14 @@ def make_updates(rng, table, root):
                 P = rng.choice(mixed) if mixed and rng.random() < 0.8 else rng.choice(seqs)
                 v = rng.choice(['"443:443"', '{"n": 1}', "5", '"plain"', "true", '{"a": {"b": 1}}', "[[1]]"])
                 ups.append({"kind": "appendone", "path": P, "expr": "%s += %s" % (expr_of(P), v)})
+        elif kind == "mapoverwrite":
+            # += on a map with a key that exists already (scalar value, simple key): the entry keeps its key node
+            maps = [p for p in ts if table[p]["a"][0] == "map"] + ([()] if table[()]["a"][0] == "map" else [])
+            cands = [(p, k) for p in maps for k in table[p]["shape"] if re.match(r"^[a-z][a-z0-9]*$", str(k))
+                     and table.get(p + (k,), {"a": [None]})["a"][0] == "scalar" and table[p + (k,)]["a"][2] == "!!str" and not table[p + (k,)]["a"][3]]
+            if cands:
+                P, k = rng.choice(cands)
+                ups.append(rng.choice(overwrite_updates(P, k)))
         elif kind == "padassign":
             # assignment beyond the end of a non-empty sequence (flow ones first): nulls are padded in
             seqs = [p for p in ts if table[p]["a"][0] == "seq" and table[p]["shape"] > 0]
@@ -825,6 +881,9 @@ def run(chk):
         docs.append(gen_case_doc(rng))
     # documents built around one kind of selection (updates addressed by value / select(...), see gen_selection_doc)
     special = {}
+    for text, ups in directed_docs():
+        special[len(docs)] = ups
+        docs.append(text)
     for _ in range(max(30, ndocs // 5)):
         text, ups = gen_selection_doc(rng)
         special[len(docs)] = ups
